@@ -24,7 +24,12 @@ ASSUMPTIONS = ["float rounding on non-dyadic inputs is outside the theorem (exac
 
 def gen_case(rng):
     style = rng.choice(["ties", "neg", "spread", "plain", "tiny", "boundary", "intfrac"])
-    if style == "boundary":
+    wide = False
+    if style == "plain" and rng.random() < 0.12:
+        wide = True          # MANY clusters (past 255 / 256: a successor or label stored in a narrow integer type wraps)
+    if wide:
+        T, K = rng.randint(2, 5), rng.choice([255, 256, 257, 300, 320, 700])
+    elif style == "boundary":
         T, K = rng.choice([(1, 1), (1, 3), (2, 1), (2, 2), (3, 2), (1, 6)])
     elif style == "tiny":
         T, K = rng.randint(1, 6), rng.randint(1, 4)
@@ -42,6 +47,12 @@ def gen_case(rng):
             return Fraction(rng.randint(-1023, 1023)) * (Fraction(2) ** e)
         return Fraction(rng.randint(0, 4000), 2 ** rng.choice([0, 1, 4]))
     table = [[cost() for _ in range(K)] for _ in range(T)]
+    if wide:
+        # a flat, expensive table with one cheap cell per row, most of them in clusters of index 256 and up: the optimum
+        # walks through (or stays in) high-numbered clusters
+        table = [[Fraction(100)] * K for _ in range(T)]
+        for t_ in range(T):
+            table[t_][rng.randrange(max(0, K - 60), K) if rng.random() < 0.8 else rng.randrange(K)] = Fraction(rng.randint(0, 3))
     bstyle = rng.choice(["scalar", "vector", "zero", "vector0", "int"]) if style != "intfrac" else rng.choice(["scalar", "vector", "vector0"])
     def b():
         if style == "intfrac":
